@@ -9,6 +9,7 @@ import json, os, shutil, subprocess, sys, time
 pid, src, name = sys.argv[1], sys.argv[2].rstrip("/"), sys.argv[3]
 checks = sys.argv[4].split(",") if len(sys.argv) > 4 else [pid]
 wt = f"/tmp/sc/{name}"
+VDIR = os.environ.get("VERIF_DIR", "/verif")   # which copy of the machinery runs the check (parallel confirmations use private copies)
 
 
 def sh(cmd, **kw):
@@ -54,7 +55,7 @@ try:
     res["checks"] = {}
     for c in checks:
         t0 = time.time()
-        rc, out = sh(f"cd /verif && VERIF_REPO={wt} python3 check.py {c} --tier quick")
+        rc, out = sh(f"cd {VDIR} && VERIF_REPO={wt} python3 check.py {c} --tier quick")
         lines = [l for l in out.splitlines() if l.startswith(("VIOLATION", "KNOWN-FINDING", "CHECK-BROKEN", "  violation", "["))]
         res["checks"][c] = {"rc": rc, "wall_s": round(time.time() - t0, 1), "lines": lines[:12]}
     sh(f"git -C {wt} checkout -- .")
